@@ -13,6 +13,8 @@ import (
 
 	"github.com/refraction-networking/uquic/internal/verif/evlog"
 	"github.com/refraction-networking/uquic/internal/verif/quicworld"
+	"github.com/refraction-networking/uquic/internal/verif/simworld"
+	"github.com/refraction-networking/uquic/internal/verif/wiretap"
 )
 
 func c01Report(l *evlog.Log) quicworld.Reporter {
@@ -78,6 +80,23 @@ func TestVerifC01Faults(t *testing.T) {
 	} else {
 		clients = append(clients, quicworld.ClientSel{Client: "unil", V2: true}, quicworld.ClientSel{Client: "Chrome_146_IPv4"}, quicworld.ClientSel{Client: "Firefox_116C"})
 		cases = quicworld.FaultSuite(l, clients, []string{"S1", "S2", "S3", "S5", "S6"}, 12, 60000, 40000, 12000)
+	}
+	// control-frame retransmission: small stream-count limits and small fixed windows make the transfer
+	// depend on every MAX_STREAMS / MAX_DATA / MAX_STREAM_DATA / STREAMS_BLOCKED round; each of the first
+	// datagrams of either direction is dropped once (the transfer must still complete)
+	for _, cl := range []string{"plain", "Firefox_116A"} {
+		for _, sc := range []string{"S7", "S8", "S9", "S10"} {
+			for d := 0; d < 2; d++ {
+				for o := 0; o < l.Pick(50, 160); o++ {
+					lim := 0
+					if sc == "S9" {
+						lim = 1
+					}
+					cases = append(cases, &quicworld.ConnCase{Name: fmt.Sprintf("limits/%s/%s/d%d-o%d-drop", sc, cl, d, o), Client: cl, SmallLimits: sc == "S7" || sc == "S8", StreamLimit: lim, RTTms: 10, ConnIdx: len(cases),
+						Schedule: simworld.Schedule{Faults: []simworld.Fault{{Dir: wiretap.Dir(d), Ordinal: o, Action: simworld.Action{Kind: "drop"}}}}, Transfer: quicworld.Scenario(sc, uint64(len(cases)))})
+				}
+			}
+		}
 	}
 	quicworld.RunSuite(t, l, cases, c01Report(l))
 }
